@@ -11,7 +11,7 @@ COMMON_ASSUMPTIONS = [
 
 PROPS = {
     "C01": {
-        "rules": ["T4", "T5", "T11", "T6", "T3", "G1", "G2", "G3", "G4", "G5", "K6"],
+        "rules": ["T4", "T5", "T11", "T6", "T3", "G1", "G1c", "G2", "G3", "G4", "G5", "K6"],
         "decides": "Per-keyword conformance skeleton: one type-guarded validator per keyword, spec comparison "
                    "operators, bool-aware deep JSON equality, member resolution cases, composition counting, "
                    "validate-all-then-construct, recursive parsing of every sub-schema position.",
@@ -70,7 +70,7 @@ PROPS = {
         "assumptions": ["CPython GIL-atomic attribute store", "one Property object has one owner"],
     },
     "C09": {
-        "rules": ["D1", "D2"],
+        "rules": ["D1", "D2", "D3"],
         "decides": "every set-typed expression reachable from generation/serialization flows only to "
                    "order-insensitive consumers; no hash()/id()/time/random/environment/listing value reaches "
                    "emitted text or ordering.",
